@@ -16,6 +16,55 @@ NOTES = {
     "C16-s1": "first missed: shortcut-edge workflows added to C16",
     "C17-s2": "first missed (masked by the broad D7 signature): lost cancels are now judged on the pool's true table and the known-finding signatures were narrowed",
     "C14-s1": "makes the server spin without yielding: reported through the watchdog",
+    "C09-s3": "first missed: in-run duplicate check and accounting-off scenarios added to C09",
+    "C10-s2": "first missed: an unopenable log path is now an observation, falsy option values added",
+    "C19-s2": "first missed: project reached through a symlinked directory + absolute/relative mix added",
+    "C14-s4": "first missed: H polls twice after M's enqueue (stale answers become visible)",
+    "C20-s2": "first missed: key names that are prefixes of each other added to the C20 alphabet",
+    "C02-s3": "first missed: C02 got a CLI sub-bound (the real `gwf run <selection>` incl. a pattern matching nothing)",
+    "C01-s4": "first missed: non-sequence containers (dict views, UserDict, mappingproxy, re-iterables) added",
+    "C11-s4": "first missed: scenarios are resampled under shifted heaps when the code under test is not a function of the schedule",
+    "C18-s3": "first missed: C18 judges 'enabled' by the user's last `config set`, not by what gwf reads back",
+    "C19-s3": "first missed: naming function that returns the same name for two items (must be rejected)",
+    "C15-s4": "first missed: a declared output that is a symlink to an unrelated file",
+    "C04-s3": "first missed, then reported through the watchdog (graph building never returns): reconvergent layered DAGs with exponential path counts added",
+    "C04-s4": "first missed: stale logs of removed targets in the CLI family (ill-formed workflows must change nothing)",
+    "C04-s5": "first missed: every definition order of every target set",
+    "C04-s6": "first missed: real-file-system input kinds family (file, directory, symlinks, dangling)",
+    "C03-s4": "first missed: `gwf info NAME...` added to C03",
+    "C03-s5": "first missed: trailing-slash spelling added (9 spellings)",
+    "C03-s6": "first missed: Mapping types that are not dict (UserDict, mappingproxy)",
+    "C17-s3": "first missed: scheduler command failing with empty stderr added as a fault kind; the failure report of `gwf cancel` is judged on content, not wording",
+    "C08-s5": "first missed: requeued jobs (same id runs again) added as a simulator step and initial prefix; private files under .gwf are carried through world snapshots",
+    "C08-s6": "first missed: sacct must still be consulted when squeue fails",
+    "C06-s5": "first missed: shortcut workflow added to C06",
+    "C09-s5": "first missed: crash point right after the rename that publishes a state file",
+    "C09-s6": "first missed: write faults (ENOSPC at the k-th open-for-writing, incl. script copies)",
+    "C12-s5": "first missed: per-task log failures followed by more ready tasks than cores; capacity probe at every horizon",
+    "C15-s6": "first missed: commands started from a sub-directory / with -f (decoy files of the same relative names)",
+    "C14-s5": "first found only by the socket tier, whose case did not replay alone (a pool is not reset between sequences): the case now carries the pool's history; the virtual tier got unstartable tasks + the capacity probe",
+    "C14-s6": "first missed: float ids in the M alphabet, task_state answers validated, final-state oracle applied to C14 scenarios",
+    "C11-s5": "C11 first missed it (C13 caught it): a dependent starting after its dependency was cancelled while unfinished is now a C11 violation whatever the final state says",
+    "C11-s6": "C11 first missed it (C13 caught it): log-failure scenario with a dependent",
+    "C20-s5": "first missed: global options (-b, -v, --no-color) combined with config set/unset/get",
+    "C20-s6": "first missed: the accounting check was vacuous without a tracked job — now `status` after `run`, calibrated against accounting on",
+    "C01-s7": "C01 first missed it (C18, C09 caught it): a rejected submission between two `status` calls",
+    "C04-s8": "C04 first missed it (C03 caught it): relative `..` spellings",
+    "C17-s5": "C17 first missed it (C13 caught it): any change to a non-selected, non-downstream task during `gwf cancel` is collateral",
+    "C18-s6": "first missed: reference and code shared gwf's hash function — new family judges 'differs' on the spec text gwf holds (15 white-space/case variants, all pairs)",
+    "C05-s7": "C05 first missed it (C02 caught it): shortcut workflow added to C05",
+    "C05-s8": "C18 first missed it (C05 caught it): a failing job added to the C18 alphabet",
+    "C19-s5": "first missed: items handed to map() as iterator / generator / tuple / dict keys",
+    "C19-s6": "first missed: C1 control characters (U+0080–U+009F)",
+    "C13-s7": "first a harness error (the change polls the real clock inside the virtual loop, the real-tier case did not replay under load): the loop now owns `time` inside gwf.backends.local; process groups got SIGTERM-immune members (virtual tier) and a `trap '' TERM` script (real tier)",
+    "C03-s7": "first missed: working directory reached through a symbolic link (on disk)",
+    "C03-s8": "first missed: two file names that differ only in Unicode normal form are two files",
+    "C09-s7": "first missed: a successful bsub whose answer is surrounded by lines of a site's submission filter",
+    "C16-s7": "first missed: re-stamping now keeps times a program chose explicitly (its own clock) apart from kernel 'now' events",
+    "C16-s8": "first missed: re-stamping only what was really stamped (a link touched without following leaves its target alone); symlinked outputs family in C16",
+    "C06-s8": "C06 first missed it (C01 caught it): jobs that give outputs the time stamp of their newest input (ties)",
+    "C02-s7": "C07 first missed it (C02 caught it): workflow written top-down (dependents defined first); C07 replay of a failing run fixed",
+    "C07-s8": "first missed: the scheduler moves while gwf is submitting (one environment step before the k-th scheduler command of a run)",
 }
 
 
